@@ -1,5 +1,6 @@
 import FCA.Proofs.Galois
 import FCA.Model.Lattice
+import FCA.Proofs.LatticeSpec
 /-
 C02 — Concept lookup returns the least formal concept containing the query.
 -/
@@ -63,6 +64,36 @@ theorem C02_lookup_key_closed (K : Ctx) (h : K.WF) (A B : Nat) (hA : Bounded K.n
 /-- `lattice(())`: the empty property set derives to all objects, the extent of the top concept -/
 theorem C02_empty_properties_top (K : Ctx) (h : K.WF) : K.extentOf 0 = full K.n := by
   apply ext; intro i; rw [mem_extentOf h]; simp
+
+/-- `lattice[objects]`: the lookup is defined and returns the position of the member whose extent and
+intent are `(A'', A')` (positions are what `Concept.index` makes observable; the member object at a
+position is unique) -/
+theorem C02_lookup_objects (K : Ctx) (h : K.WF) (A : Nat) (hA : Bounded K.n A) :
+    ∃ k c, lookupObjects K (mkLattice K) A = some k ∧ (mkLattice K)[k]? = some c ∧
+      c.extent = (K.dpObj A).1 ∧ c.intent = (K.dpObj A).2 ∧ c.index = k := by
+  have S := mkLattice_spec h
+  obtain ⟨k, hk⟩ := S.find_of_closed (doubleObj_closed h A hA)
+  obtain ⟨c, hc, he⟩ := S.find_some hk
+  refine ⟨k, c, hk, hc, he, ?_, S.index hc⟩
+  rw [S.intent hc, he]
+  exact intent_extent_intent h hA
+
+/-- `lattice(properties)` / `lattice[properties]`: likewise for `(B', B'')`, the empty property set included -/
+theorem C02_lookup_properties (K : Ctx) (h : K.WF) (B : Nat) (hB : Bounded K.m B) :
+    ∃ k c, lookupProperties K (mkLattice K) B = some k ∧ (mkLattice K)[k]? = some c ∧
+      c.extent = K.extentOf B ∧ c.intent = (K.dpProp B).1 ∧ c.index = k := by
+  have S := mkLattice_spec h
+  obtain ⟨k, hk⟩ := S.find_of_closed (C02_lookup_key_closed K h 0 B (bounded_zero _) hB).2
+  obtain ⟨c, hc, he⟩ := S.find_some hk
+  exact ⟨k, c, hk, hc, he, by rw [S.intent hc, he]; rfl, S.index hc⟩
+
+/-- `lattice[i]` is the i-th member in iteration order and carries `index = i`; `lattice[()]` is the
+last member, whose extent is all objects -/
+theorem C02_lookup_index_and_top (K : Ctx) (h : K.WF) :
+    (∀ (k : Nat) (c : LConcept), (mkLattice K)[k]? = some c → c.index = k) ∧
+    ∃ c, (mkLattice K)[(mkLattice K).length - 1]? = some c ∧ c.extent = full K.n := by
+  have S := mkLattice_spec h
+  exact ⟨fun k c hc => S.index hc, S.get_last⟩
 
 def C02_exK : Ctx := mkCtx 3 3 #[0b011, 0b001, 0b110]
 example : C02_exK.WF := mkCtx_WF 3 3 _ rfl (by intro i hi; interval_cases i <;> decide)
